@@ -41,8 +41,8 @@ def plan(ctx):
         n = k + m
         for e in esets(n, 1, m):
             surv = [i for i in range(n) if i not in e]
-            obs.append(l2_ob(be, k, m, m, surv[::-1], ln=k + 1, tag="isal-l2"))
-            obs.append(l2_ob(be, k, m, m, surv, ln=k + 1, mode=2, dest=e[0], ct=2, tag="isal-l2"))
+            obs.append(l2_ob(be, k, m, m, surv[::-1], ln=k + 1, tag="isal-l2", mem=8))
+            obs.append(l2_ob(be, k, m, m, surv, ln=k + 1, mode=2, dest=e[0], ct=1, tag="isal-l2", mem=8))
     # fragments needed
     for be, k, m in [(ISAV, 4, 2), (ISAC, 3, 3), (ISAV, 10, 4)]:
         obs.append(fn_ob(be, k, m, m, 1, m))
